@@ -334,3 +334,28 @@ Proof. apply escaped_string_closed. Qed.
 (* the generator applies the two escapes at as many places as the model does *)
 Theorem escape_sites_as_modelled : t_comment_escape_sites = 2 /\ t_string_escape_sites = 2.
 Proof. split; reflexivity. Qed.
+
+(* ---------- identifiers are legal tokens ---------- *)
+From SV Require Import Spec.Keywords Proofs.NamingProofs Proofs.DiscoverProofs.
+
+Lemma keyword_spec_iff s : mem_str s spec_keywords = is_keyword s.
+Proof.
+  pose proof keyword_table_is_spec as H. apply andb_true_iff in H as [H1 H2]. rewrite forallb_forall in H1, H2.
+  unfold is_keyword. destruct (mem_str s spec_keywords) eqn:E1, (mem_str s t_keywords) eqn:E2; try reflexivity.
+  - apply mem_str_In in E1. apply H2 in E1. congruence.
+  - apply mem_str_In in E2. apply H1 in E2. congruence.
+Qed.
+
+Theorem escaped_is_legal s : is_ident s = true -> legal_ident spec_keywords (escape s) = true.
+Proof.
+  intro HI. unfold escape, legal_ident. destruct (is_keyword s) eqn:EK.
+  - apply orb_true_iff. right. change (bq :: s ++ [bq]) with (bq :: (s ++ [bq])). cbn [Ascii.eqb]. 
+    replace (Ascii.eqb bq "`") with true by reflexivity. cbn [andb]. rewrite rev_app_distr. cbn [rev app].
+    replace (Ascii.eqb bq "`") with true by reflexivity. cbn [andb]. now rewrite rev_involutive.
+  - rewrite keyword_spec_iff, EK, HI. reflexivity.
+Qed.
+
+(* every name printed at a declaration site is a legal identifier token: not empty, not starting with a digit, no
+   keyword outside back-quotes - with the naming conversion on or off *)
+Theorem emitted_name_is_legal nc c name : is_ident name = true -> legal_ident spec_keywords (escape (convert nc c name)) = true.
+Proof. intro H. apply escaped_is_legal. now apply convert_is_ident. Qed.
